@@ -225,6 +225,8 @@ def replay(chk, c):
     c['native'] = {'exit': res['exit'], 'report': (res['report'] or '')[:600]}
     if res['report']:
         return True, 'sanitizer: ' + [l for l in res['report'].split('\n') if l.strip()][0][:200]
+    if res.get('invariant'):
+        return True, 'native object representation: ' + res['invariant']
     # model with a native kernel oracle (expression evaluated natively on copies)
     def kernel(e, dim, a, b, cc, tab):
         p2 = []
